@@ -15,6 +15,40 @@ import (
 type pathAtoms struct {
 	atoms  []atom
 	blocks []*ssa.BasicBlock
+	env    map[*ssa.Phi]ssa.Value // value each phi took on this path (last entry)
+}
+
+// resolve follows phis through the path environment.
+func (p pathAtoms) resolve(v ssa.Value) ssa.Value {
+	for i := 0; i < 10; i++ {
+		ph, ok := v.(*ssa.Phi)
+		if !ok {
+			return v
+		}
+		nv, ok := p.env[ph]
+		if !ok {
+			return v
+		}
+		v = nv
+	}
+	return v
+}
+
+// knownNil: does the path establish x == nil (true,true) / x != nil (true,false)?
+func (p pathAtoms) knownNil(x ssa.Value) (known bool, isNil bool) {
+	x = p.resolve(strip(x))
+	if isNilConst(x) {
+		return true, true
+	}
+	if isNonNilConstErr(x) {
+		return true, false
+	}
+	for _, a := range p.atoms {
+		if y, nn, ok := nilTest(a); ok && p.resolve(strip(y)) == x {
+			return true, !nn
+		}
+	}
+	return false, false
 }
 
 const pathCap = 200000
@@ -43,13 +77,77 @@ func pathsTo(from, to *ssa.BasicBlock, visit func(p pathAtoms) bool) (n int, ok 
 		}
 	}
 	stop := false
-	var dfs func(b *ssa.BasicBlock)
-	dfs = func(b *ssa.BasicBlock) {
+	env := map[*ssa.Phi]ssa.Value{}
+	cur := func() pathAtoms { return pathAtoms{atoms, blocks, env} }
+	// decide evaluates a branch condition in the finite domain of this path:
+	// constants, boolean phis entered by a constant edge, nil tests of values
+	// whose nil-ness an earlier atom (or a constant phi edge) fixed.
+	decide := func(v ssa.Value) (known bool, val bool) {
+		v, pol := unNot(v, true)
+		rv := cur().resolve(v)
+		if cb, isC := constBool(rv); isC {
+			return true, cb == pol
+		}
+		if x, nn, isNil := nilTest(atom{rv, true}); isNil {
+			if k, isN := cur().knownNil(x); k {
+				// atom asserts (x != nil) == nn ; fact: x is nil == isN
+				return true, (nn != isN) == pol
+			}
+		}
+		return false, false
+	}
+	var dfs func(b *ssa.BasicBlock, from *ssa.BasicBlock)
+	dfs = func(b *ssa.BasicBlock, from *ssa.BasicBlock) {
 		if stop || !canReach[b] {
 			return
 		}
 		blocks = append(blocks, b)
 		defer func() { blocks = blocks[:len(blocks)-1] }()
+		// bind phis
+		var saved []struct {
+			p *ssa.Phi
+			v ssa.Value
+			had bool
+		}
+		if from != nil {
+			pi := -1
+			for i, pr := range b.Preds {
+				if pr == from {
+					pi = i
+				}
+			}
+			// parallel assignment: read all incoming values first
+			var phis []*ssa.Phi
+			var vals []ssa.Value
+			for _, in := range b.Instrs {
+				ph, isPhi := in.(*ssa.Phi)
+				if !isPhi {
+					break
+				}
+				if pi >= 0 {
+					phis = append(phis, ph)
+					vals = append(vals, cur().resolve(ph.Edges[pi]))
+				}
+			}
+			for i, ph := range phis {
+				old, had := env[ph]
+				saved = append(saved, struct {
+					p *ssa.Phi
+					v ssa.Value
+					had bool
+				}{ph, old, had})
+				env[ph] = vals[i]
+			}
+		}
+		defer func() {
+			for _, sv := range saved {
+				if sv.had {
+					env[sv.p] = sv.v
+				} else {
+					delete(env, sv.p)
+				}
+			}
+		}()
 		if b == to {
 			n++
 			if n > pathCap {
@@ -57,7 +155,11 @@ func pathsTo(from, to *ssa.BasicBlock, visit func(p pathAtoms) bool) (n int, ok 
 				stop = true
 				return
 			}
-			if !visit(pathAtoms{append([]atom(nil), atoms...), append([]*ssa.BasicBlock(nil), blocks...)}) {
+			envCopy := map[*ssa.Phi]ssa.Value{}
+			for k, v := range env {
+				envCopy[k] = v
+			}
+			if !visit(pathAtoms{append([]atom(nil), atoms...), append([]*ssa.BasicBlock(nil), blocks...), envCopy}) {
 				stop = true
 			}
 			return
@@ -84,18 +186,21 @@ func pathsTo(from, to *ssa.BasicBlock, visit func(p pathAtoms) bool) (n int, ok 
 				if cb, isC := constBool(v); isC && cb != p {
 					contra = true
 				}
+				if known, val := decide(i.Cond); known && val != (si == 0) {
+					contra = true
+				}
 				if contra {
 					continue
 				}
 				atoms = append(atoms, atom{v, p})
-				dfs(s)
+				dfs(s, b)
 				atoms = atoms[:len(atoms)-1]
 			} else {
-				dfs(s)
+				dfs(s, b)
 			}
 		}
 	}
-	dfs(from)
+	dfs(from, nil)
 	return n, ok
 }
 
